@@ -494,6 +494,19 @@ def dumpArith (o : Opts) (startByte : Int) : Outcome Unit :=
 def dump (o : Opts) (startByte : Int) : Outcome Unit :=
   (dumpHeader o.lineBytes).bind fun _ => dumpArith o startByte
 
+/-! ## _stdio_read (interp.go:568-595): `buf := make([]byte, l)` with the caller's length -/
+
+/-- Go `make([]byte, n)`: a negative length or one above maxAlloc (2^48) is a run-time panic
+    ("makeslice: len out of range"), above 8 GiB the allocation cannot be satisfied -/
+def makeBytes (n : Int) : Outcome Nat :=
+  if n < 0 || n > 281474976710656 then .panic "runtime error: makeslice: len out of range"
+  else if n.toNat > resourceBits / 8 then .resource "make([]byte, n) of more than 8 GiB"
+  else .ok n.toNat
+
+/-- `_stdio_read($fd; $l)`: unknown fd names are errors; the length is used as it comes -/
+def stdioRead (fdKnown : Bool) (l : Int) : Outcome Nat :=
+  if !fdKnown then .err "unknown-fd" else makeBytes l
+
 /-! ## _tobits (binary.go:158-190) -/
 
 /-- can `toBinary` convert the input at all (binary.go:31-150)? Only the outermost type matters
